@@ -18,7 +18,7 @@ demo() {  # $1 = built tree, $2 = matching source tree
 }
 cmake -G Ninja -S $W -B $W.head -DCMAKE_BUILD_TYPE=Release >/dev/null 2>&1 && ninja -C $W.head >/dev/null 2>&1 || { echo "HEAD build failed"; exit 2; }
 demo $W.head $W > $W.head/demo_head.txt 2>&1; DH=$?
-git -C $W apply "$SRC/patch.diff" || { echo "patch does not apply"; exit 2; }
+git -C $W apply "$SRC/patch.diff" 2>/dev/null || (cd $W && patch -p1 -s --no-backup-if-mismatch < "$SRC/patch.diff") || { echo "patch does not apply"; exit 2; }
 cmake -G Ninja -S $W -B $W/_b -DCMAKE_BUILD_TYPE=Release >/dev/null 2>&1 && ninja -C $W/_b >/dev/null 2>&1 || { echo "changed build failed"; exit 2; }
 ST=$(/var/tmp/run_stable.sh $W/_b 2>&1 | tail -1)
 demo $W/_b $W > $W/_b/demo_changed.txt 2>&1; DC=$?
